@@ -992,4 +992,238 @@ theorem exec_noFall (M n : Nat) (fns : List FDecl) (w : Nat) : ∀ (fuel : Nat) 
               simp only [hk, Option.bind_eq_bind, Option.bind_some, Option.pure_def, Option.some.injEq, Prod.mk.injEq] at hex
               rw [← hex.2.2]; exact ih k _ _ _ _ _ _ hy hk
 
+/-- the source semantics only ever uses `room` to decide whether a callee's frame fits: more room
+never changes a conclusive result -/
+theorem exec_room_mono (M n : Nat) (fns : List FDecl) (w : Nat) : ∀ (fuel : Nat) (s : S) (room room' o : Nat) (env : Env)
+    (r : Env × List Ev × Res), room ≤ room' →
+    exec M n fns w fuel room o env s = some r → exec M n fns w fuel room' o env s = some r := by
+  intro fuel
+  induction fuel with
+  | zero => intro s room room' o env r _ h; simp [exec] at h
+  | succ f ih =>
+    intro s room room' o env r hle hex
+    have hcw : ∀ (o : Nat) (env : Env) (g : String) (args : List E) (rc : List Ev × Bool × Option Nat),
+        callWith M n fns w (exec M n fns w f) room o env g args = some rc →
+        callWith M n fns w (exec M n fns w f) room' o env g args = some rc := by
+      intro o env g args rc h
+      unfold callWith at h ⊢
+      cases hev : evalArgs M n env args with
+      | none => simpa [hev] using h
+      | some vs =>
+        simp only [hev] at h ⊢
+        cases hfind : fns.find? (fun fd => fd.name == g) with
+        | none => simp [hfind] at h
+        | some fd =>
+          simp only [hfind] at h ⊢
+          by_cases hc : vs.length ≠ fd.params.length ∨ room < o ∨ room - o < pkS w (entryOff w fd.params) fd.body
+          · simp [hc] at h
+          · rw [if_neg hc] at h
+            have hc' : ¬ (vs.length ≠ fd.params.length ∨ room' < o ∨ room' - o < pkS w (entryOff w fd.params) fd.body) := by omega
+            rw [if_neg hc']
+            cases hb : exec M n fns w f (room - o) (entryOff w fd.params) (bindEnv fd.params vs) fd.body with
+            | none => simp [hb] at h
+            | some rb =>
+              rw [ih _ _ _ _ _ _ (by omega) hb]
+              rw [hb] at h
+              exact h
+    cases s with
+    | nil => simpa [exec] using hex
+    | ret => simpa [exec] using hex
+    | retE e => simpa [exec] using hex
+    | defeat k => simpa [exec] using hex
+    | decl x e k =>
+      simp only [exec] at hex ⊢
+      cases hev : evalE M n env e with
+      | none => simpa [hev] using hex
+      | some v => simp only [hev] at hex ⊢; exact ih _ _ _ _ _ _ hle hex
+    | assign x e k =>
+      simp only [exec] at hex ⊢
+      cases hev : evalE M n env e with
+      | none => simpa [hev] using hex
+      | some v => simp only [hev] at hex ⊢; exact ih _ _ _ _ _ _ hle hex
+    | write e k =>
+      simp only [exec] at hex ⊢
+      cases hev : evalE M n env e with
+      | none => simpa [hev] using hex
+      | some v =>
+        simp only [hev] at hex ⊢
+        cases hk : exec M n fns w f room o env k with
+        | none => simp [hk] at hex
+        | some rk => rw [ih _ _ _ _ _ _ hle hk]; rw [hk] at hex; exact hex
+    | writeln e k =>
+      cases e with
+      | none =>
+        simp only [exec] at hex ⊢
+        cases hk : exec M n fns w f room o env k with
+        | none => simp [hk] at hex
+        | some rk => rw [ih _ _ _ _ _ _ hle hk]; rw [hk] at hex; exact hex
+      | some e =>
+        simp only [exec] at hex ⊢
+        cases hev : evalE M n env e with
+        | none => simpa [hev] using hex
+        | some v =>
+          simp only [hev] at hex ⊢
+          cases hk : exec M n fns w f room o env k with
+          | none => simp [hk] at hex
+          | some rk => rw [ih _ _ _ _ _ _ hle hk]; rw [hk] at hex; exact hex
+    | putc c k =>
+      simp only [exec] at hex ⊢
+      cases hk : exec M n fns w f room o env k with
+      | none => simp [hk] at hex
+      | some rk => rw [ih _ _ _ _ _ _ hle hk]; rw [hk] at hex; exact hex
+    | block b k =>
+      simp only [exec] at hex ⊢
+      cases hb : exec M n fns w f room o env b with
+      | none => simp [hb] at hex
+      | some rb =>
+        obtain ⟨e1, t1, r1⟩ := rb
+        rw [ih _ _ _ _ _ _ hle hb]
+        simp only [hb, Option.bind_eq_bind, Option.bind_some] at hex ⊢
+        by_cases hn : r1 = .norm
+        · subst hn
+          simp only [if_true] at hex ⊢
+          cases hk : exec M n fns w f room o e1 k with
+          | none => simp [hk] at hex
+          | some rk => rw [ih _ _ _ _ _ _ hle hk]; rw [hk] at hex; exact hex
+        · simpa [hn] using hex
+    | ifb c t e k =>
+      simp only [exec] at hex ⊢
+      cases hev : evalB M n env c with
+      | none => simpa [hev] using hex
+      | some cv =>
+        simp only [hev] at hex ⊢
+        cases hb : exec M n fns w f room o env (if cv = true then t else e) with
+        | none => simp [hb] at hex
+        | some rb =>
+          obtain ⟨e1, t1, r1⟩ := rb
+          rw [ih _ _ _ _ _ _ hle hb]
+          simp only [hb, Option.bind_eq_bind, Option.bind_some] at hex ⊢
+          by_cases hn : r1 = .norm
+          · subst hn
+            simp only [if_true] at hex ⊢
+            cases hk : exec M n fns w f room o e1 k with
+            | none => simp [hk] at hex
+            | some rk => rw [ih _ _ _ _ _ _ hle hk]; rw [hk] at hex; exact hex
+          · simpa [hn] using hex
+    | loop c body cont k =>
+      simp only [exec] at hex ⊢
+      cases hev : evalB M n env c with
+      | none => simpa [hev] using hex
+      | some cv =>
+        cases cv with
+        | false => simp only [hev] at hex ⊢; exact ih _ _ _ _ _ _ hle hex
+        | true =>
+          simp only [hev] at hex ⊢
+          cases hb : exec M n fns w f room o env body with
+          | none => simp [hb] at hex
+          | some rb =>
+            obtain ⟨e1, t1, r1⟩ := rb
+            rw [ih _ _ _ _ _ _ hle hb]
+            simp only [hb, Option.bind_eq_bind, Option.bind_some] at hex ⊢
+            by_cases hn : r1 = .norm
+            · subst hn
+              simp only [if_true] at hex ⊢
+              cases hc : exec M n fns w f room o e1 cont with
+              | none => simp [hc] at hex
+              | some rc =>
+                obtain ⟨e2, t2, r2⟩ := rc
+                rw [ih _ _ _ _ _ _ hle hc]
+                simp only [hc, Option.bind_some] at hex ⊢
+                by_cases hn2 : r2 = .norm
+                · subst hn2
+                  simp only [if_true] at hex ⊢
+                  cases hl : exec M n fns w f room o e2 (.loop c body cont k) with
+                  | none => simp [hl] at hex
+                  | some rl => rw [ih _ _ _ _ _ _ hle hl]; rw [hl] at hex; exact hex
+                · simpa [hn2] using hex
+            · simpa [hn] using hex
+    | defeatIf c k =>
+      simp only [exec] at hex ⊢
+      cases hev : evalB M n env c with
+      | none => simpa [hev] using hex
+      | some cv =>
+        cases cv with
+        | true => simpa [hev] using hex
+        | false => simp only [hev] at hex ⊢; exact ih _ _ _ _ _ _ hle hex
+    | tryUndo body handler k =>
+      simp only [exec] at hex ⊢
+      cases hb : exec M n fns w f room o env body with
+      | none => simp [hb] at hex
+      | some rb =>
+        obtain ⟨e1, t1, r1⟩ := rb
+        rw [ih _ _ _ _ _ _ hle hb]
+        simp only [hb, Option.bind_eq_bind, Option.bind_some] at hex ⊢
+        by_cases hd : r1 = .defeat
+        · subst hd
+          simp only [if_true] at hex ⊢
+          cases hh : exec M n fns w f room o env handler with
+          | none => simp [hh] at hex
+          | some rh =>
+            obtain ⟨e2, t2, r2⟩ := rh
+            rw [ih _ _ _ _ _ _ hle hh]
+            simp only [hh, Option.bind_some] at hex ⊢
+            by_cases hn2 : r2 = .norm
+            · subst hn2
+              simp only [if_true] at hex ⊢
+              cases hk : exec M n fns w f room o e2 k with
+              | none => simp [hk] at hex
+              | some rk => rw [ih _ _ _ _ _ _ hle hk]; rw [hk] at hex; exact hex
+            · simpa [hn2] using hex
+        · simp only [hd, if_false] at hex ⊢
+          by_cases hn : r1 = .norm
+          · subst hn
+            simp only [if_true] at hex ⊢
+            cases hk : exec M n fns w f room o e1 k with
+            | none => simp [hk] at hex
+            | some rk => rw [ih _ _ _ _ _ _ hle hk]; rw [hk] at hex; exact hex
+          · simpa [hn] using hex
+    | callS g args k =>
+      simp only [exec] at hex ⊢
+      cases hc : callWith M n fns w (exec M n fns w f) room o env g args with
+      | none => simp [hc] at hex
+      | some rc =>
+        rw [hcw _ _ _ _ _ hc]
+        obtain ⟨trc, flag, rv⟩ := rc
+        cases flag with
+        | true => simpa [hc] using hex
+        | false =>
+          simp only [hc] at hex ⊢
+          cases hk : exec M n fns w f room o env k with
+          | none => simp [hk] at hex
+          | some rk => rw [ih _ _ _ _ _ _ hle hk]; rw [hk] at hex; exact hex
+    | declCall x g args k =>
+      simp only [exec] at hex ⊢
+      cases hc : callWith M n fns w (exec M n fns w f) room o env g args with
+      | none => simp [hc] at hex
+      | some rc =>
+        rw [hcw _ _ _ _ _ hc]
+        obtain ⟨trc, flag, rv⟩ := rc
+        cases flag with
+        | true => simpa [hc] using hex
+        | false =>
+          cases rv with
+          | none => simp [hc] at hex
+          | some v =>
+            simp only [hc] at hex ⊢
+            cases hk : exec M n fns w f room (o + w) (upd env x v) k with
+            | none => simp [hk] at hex
+            | some rk => rw [ih _ _ _ _ _ _ hle hk]; rw [hk] at hex; exact hex
+    | assignCall x g args k =>
+      simp only [exec] at hex ⊢
+      cases hc : callWith M n fns w (exec M n fns w f) room o env g args with
+      | none => simp [hc] at hex
+      | some rc =>
+        rw [hcw _ _ _ _ _ hc]
+        obtain ⟨trc, flag, rv⟩ := rc
+        cases flag with
+        | true => simpa [hc] using hex
+        | false =>
+          cases rv with
+          | none => simp [hc] at hex
+          | some v =>
+            simp only [hc] at hex ⊢
+            cases hk : exec M n fns w f room o (upd env x v) k with
+            | none => simp [hk] at hex
+            | some rk => rw [ih _ _ _ _ _ _ hle hk]; rw [hk] at hex; exact hex
+
 end HidVerif.Core
